@@ -1,0 +1,68 @@
+//go:build verif
+
+package gohlslib
+
+import "context"
+
+// Exporters of the unexported clientSegmentQueue for the verification harness in
+// /verif (property C20). Nothing in this file is compiled into normal builds.
+
+// VerifSegmentQueue wraps a clientSegmentQueue.
+type VerifSegmentQueue struct {
+	q *clientSegmentQueue
+}
+
+// VerifNewSegmentQueue allocates and initializes a queue like clientStreamDownloader.run does.
+func VerifNewSegmentQueue() *VerifSegmentQueue {
+	q := &clientSegmentQueue{}
+	q.initialize()
+	return &VerifSegmentQueue{q: q}
+}
+
+// VerifQueuePush pushes a segment whose payload identifies it, or the nil end-of-stream marker when id < 0.
+func (v *VerifSegmentQueue) VerifQueuePush(id int) {
+	if id < 0 {
+		v.q.push(nil)
+		return
+	}
+	v.q.push(&segmentData{payload: []byte{byte(id >> 24), byte(id >> 16), byte(id >> 8), byte(id)}})
+}
+
+// VerifQueuePull calls pull. id is -1 for the nil marker.
+func (v *VerifSegmentQueue) VerifQueuePull(ctx context.Context) (id int, ok bool) {
+	seg, ok := v.q.pull(ctx)
+	if !ok {
+		return 0, false
+	}
+	if seg == nil {
+		return -1, true
+	}
+	p := seg.payload
+	return int(p[0])<<24 | int(p[1])<<16 | int(p[2])<<8 | int(p[3]), true
+}
+
+// VerifQueueWaitUntilSizeIsBelow calls waitUntilSizeIsBelow.
+func (v *VerifSegmentQueue) VerifQueueWaitUntilSizeIsBelow(ctx context.Context, n int) bool {
+	return v.q.waitUntilSizeIsBelow(ctx, n)
+}
+
+// VerifQueueMutexHeld reports whether the queue's mutex is currently held.
+func (v *VerifSegmentQueue) VerifQueueMutexHeld() bool {
+	if v.q.mutex.TryLock() {
+		v.q.mutex.Unlock()
+		return false
+	}
+	return true
+}
+
+// VerifQueueSnapshot returns the queue length, the number of nil entries and the identities of
+// the two broadcast channels. It does not take the mutex: the harness calls it only while every
+// goroutine using the queue is parked at a yield point or blocked.
+func (v *VerifSegmentQueue) VerifQueueSnapshot() (length int, nils int, didPush, didPull <-chan struct{}) {
+	for _, s := range v.q.queue {
+		if s == nil {
+			nils++
+		}
+	}
+	return len(v.q.queue), nils, v.q.didPush, v.q.didPull
+}
